@@ -219,10 +219,19 @@ private theorem foldl_addrs_mem (rs : List AuthReq) (acc : List Name) :
       · exact a _ (by simp)
       · exact b r' hr'
 
+private theorem eq_singleton_of_mem_of_length_le_one {α : Type} (l : List α) (k : α) (hl : l.length ≤ 1) (hk : k ∈ l) :
+    l = [k] := by
+  cases l with
+  | nil => simp at hk
+  | cons a l =>
+    cases l with
+    | nil => simp at hk; subst hk; rfl
+    | cons b l => simp at hl
+
 private theorem xuper_inv (e : Env) (t : SigLogic.Tx) (x : XSign) (v : List Name) (hx : t.xuper = some x)
     (h : verifyXuperSign t x = some v) :
     (∀ n ∈ v, ∃ a, n = Name.ak a ∧ signedBy t a) ∧ t.initiator ∈ v ∧ ∀ r ∈ t.authRequire, Name.ak r.addr ∈ v := by
-  unfold verifyXuperSign at h
+  unfold verifyXuperSign verifyXuperSignWith xuperAddrs at h
   simp only at h
   split at h
   · simp at h
@@ -232,27 +241,39 @@ private theorem xuper_inv (e : Env) (t : SigLogic.Tx) (x : XSign) (v : List Name
     · split at h
       · rename_i hall
         split at h
-        · rename_i hsig
-          simp only [Option.some.injEq] at h
-          subst h
-          obtain ⟨m1, m2⟩ := foldl_addrs_mem t.authRequire [t.initiator]
-          refine ⟨?_, m1 _ (by simp), m2⟩
-          intro n hn
-          have hl : (t.authRequire.foldl (fun acc r => if acc.contains (Name.ak r.addr) then acc else acc ++ [Name.ak r.addr]) [t.initiator]).length
-              = x.keyAddrs.length := by simpa using hlen
-          obtain ⟨k, hk⟩ := mem_zip_of_mem_left _ _ hl n hn
-          have := List.all_eq_true.mp hall (n, k) hk
-          cases n with
-          | ak a =>
-            cases k with
-            | none => simp at this
-            | some k' =>
-              simp only [beq_iff_eq] at this
-              subst this
-              exact ⟨a, rfl, Or.inr ⟨x, hx, hsig, (List.of_mem_zip hk).2⟩⟩
-          | account _ => simp at this
-          | invalid => simp at this
         · simp at h
+        · rename_i hmulti
+          split at h
+          · rename_i hsig
+            simp only [Option.some.injEq] at h
+            subst h
+            obtain ⟨m1, m2⟩ := foldl_addrs_mem t.authRequire [t.initiator]
+            refine ⟨?_, m1 _ (by simp), m2⟩
+            intro n hn
+            have hl : (t.authRequire.foldl (fun acc r => if acc.contains (Name.ak r.addr) then acc else acc ++ [Name.ak r.addr]) [t.initiator]).length
+                = x.keyAddrs.length := by simpa using hlen
+            obtain ⟨k, hk⟩ := mem_zip_of_mem_left _ _ hl n hn
+            have := List.all_eq_true.mp hall (n, k) hk
+            cases n with
+            | ak a =>
+              cases k with
+              | none => simp at this
+              | some k' =>
+                simp only [beq_iff_eq] at this
+                subst this
+                have hmem : some a ∈ x.keyAddrs := (List.of_mem_zip hk).2
+                refine ⟨a, rfl, Or.inr ⟨x, hx, hsig, ?_⟩⟩
+                cases hm : x.multi with
+                | true => exact Or.inl ⟨rfl, hmem⟩
+                | false =>
+                  refine Or.inr ⟨rfl, ?_⟩
+                  have hle : x.keyAddrs.length ≤ 1 := by
+                    simp only [hm, Bool.true_and, Bool.not_false, Bool.and_true, decide_eq_true_eq] at hmulti
+                    omega
+                  exact eq_singleton_of_mem_of_length_le_one _ _ hle hmem
+            | account _ => simp at this
+            | invalid => simp at this
+          · simp at h
       · simp at h
 
 private theorem utxoLoop_inv (e : Env) (t : SigLogic.Tx) (ex : Input → Bool) (ins : List Input) (v : List Name)
@@ -294,6 +315,75 @@ private theorem utxoLoop_inv (e : Env) (t : SigLogic.Tx) (ex : Input → Bool) (
             · exact ih _ hv' h j hj hb
           · simp [ha] at h
 
+/-- what the signature stage establishes about the ids it reports as verified -/
+private theorem sigs_inv (e : Env) (t : SigLogic.Tx) (v : List Name) (hvs : verifySignatures e t = some v) :
+    (∀ x ∈ v, Justified e t x) ∧ (∀ a, t.initiator = .ak a → signedBy t a) ∧
+    (∀ n, t.initiator = .account n → t.xuper = none ∧
+      (∀ s ∈ t.initiatorSigns, ∃ a, s.keyAddr = some a ∧ s.sigOk = true) ∧
+      ∃ uris, e.acctOk n uris = true ∧ ∀ w ∈ uris, w.prefixAcct = some n ∧ ∃ s ∈ t.initiatorSigns, s.keyAddr = some w.addr) ∧
+    t.initiator ≠ .invalid ∧
+    ∀ r ∈ t.authRequire, Name.ak r.addr ∈ v := by
+  unfold verifySignatures at hvs
+  cases hx : t.xuper with
+  | some x =>
+    simp only [hx] at hvs
+    obtain ⟨a, b, c⟩ := xuper_inv e t x v hx hvs
+    refine ⟨?_, ?_, ?_, ?_, c⟩
+    · intro n hn; obtain ⟨ad, rfl, hs⟩ := a n hn; exact hs
+    · intro ad had; obtain ⟨ad', h1, hs⟩ := a _ b; rw [had] at h1; cases h1; exact hs
+    · intro n hn; obtain ⟨ad', h1, _⟩ := a _ b; rw [hn] at h1; cases h1
+    · intro hinv; obtain ⟨ad', h1, _⟩ := a _ b; rw [hinv] at h1; cases h1
+  | none =>
+    simp only [hx] at hvs
+    split at hvs
+    · simp at hvs
+    · rename_i hlen
+      simp only [Bool.or_eq_true, decide_eq_true_eq, bne_iff_ne, ne_eq, not_or, Decidable.not_not] at hlen
+      have hzip : ∀ p ∈ t.authRequire.zip t.authRequireSigns, p.2 ∈ t.authRequireSigns :=
+        fun p hp => (List.of_mem_zip hp).2
+      have hcov : ∀ v' : List Name, (∀ p ∈ t.authRequire.zip t.authRequireSigns, Name.ak p.1.addr ∈ v') →
+          ∀ r ∈ t.authRequire, Name.ak r.addr ∈ v' := by
+        intro v' hp r hr
+        obtain ⟨s, hs⟩ := mem_zip_of_mem_left _ _ hlen.2 r hr
+        exact hp (r, s) hs
+      cases hi : t.initiator with
+      | invalid => simp [hi] at hvs
+      | ak a =>
+        simp only [hi] at hvs
+        cases hss : t.initiatorSigns with
+        | nil => simp [hss] at hvs
+        | cons s ss =>
+          simp only [hss] at hvs
+          by_cases hid : identifyAK a s = true
+          · simp only [hid, if_true] at hvs
+            have hsa : signedBy t a := by
+              simp only [identifyAK, Bool.and_eq_true, beq_iff_eq] at hid
+              exact Or.inl ⟨s, by simp [hss], hid.1, hid.2⟩
+            obtain ⟨p, q, r⟩ := authLoop_inv e t _ [Name.ak a] v hzip hx
+              (show ∀ x ∈ ([Name.ak a] : List Name), Justified e t x from by
+                intro x hx'; simp at hx'; subst hx'; exact hsa) hvs
+            exact ⟨p, (fun a' ha' => by cases ha'; exact hsa), (by intro n hn; cases hn), (by simp), hcov v r⟩
+          · simp [hid] at hvs
+      | account n =>
+        simp only [hi] at hvs
+        cases hl : initAcctLoop t.initiatorSigns [] [] n with
+        | none => simp [hl] at hvs
+        | some res =>
+          simp only [hl] at hvs
+          by_cases hacct : e.acctOk n res.2 = true
+          · simp only [hacct, if_true] at hvs
+            obtain ⟨p0, p1, p2⟩ := initAcctLoop_inv e t _ [] [] n res (fun s hs => hs) (by simp) hl
+            obtain ⟨p, q, r⟩ := authLoop_inv e t _ res.1 v hzip hx p0 hvs
+            refine ⟨p, (by intro a ha; cases ha), ?_, (by simp), hcov v r⟩
+            intro n' hn'
+            cases hn'
+            refine ⟨rfl, p1, res.2, hacct, ?_⟩
+            intro w hw
+            rcases p2 w hw with hu | hu
+            · simp at hu
+            · exact hu
+          · simp [hacct] at hvs
+
 /-- **Acceptance implies signatures and ownership.**  If the verification accepts, then the id
 is the hash of the content; an address initiator has a valid signature over the digest under a
 key hashing to it (an account initiator: every initiator signature verifies under its own key
@@ -318,72 +408,7 @@ theorem accept_implies_signed_with (ex : SigLogic.Tx → Input → Bool) (e : En
   | some v =>
     simp only [hvs] at h
     -- what the signature stage establishes
-    have key : (∀ x ∈ v, Justified e t x) ∧ (∀ a, t.initiator = .ak a → signedBy t a) ∧
-        (∀ n, t.initiator = .account n → t.xuper = none ∧
-          (∀ s ∈ t.initiatorSigns, ∃ a, s.keyAddr = some a ∧ s.sigOk = true) ∧
-          ∃ uris, e.acctOk n uris = true ∧ ∀ w ∈ uris, w.prefixAcct = some n ∧ ∃ s ∈ t.initiatorSigns, s.keyAddr = some w.addr) ∧
-        t.initiator ≠ .invalid ∧
-        ∀ r ∈ t.authRequire, Name.ak r.addr ∈ v := by
-      unfold verifySignatures at hvs
-      cases hx : t.xuper with
-      | some x =>
-        simp only [hx] at hvs
-        obtain ⟨a, b, c⟩ := xuper_inv e t x v hx hvs
-        refine ⟨?_, ?_, ?_, ?_, c⟩
-        · intro n hn; obtain ⟨ad, rfl, hs⟩ := a n hn; exact hs
-        · intro ad had; obtain ⟨ad', h1, hs⟩ := a _ b; rw [had] at h1; cases h1; exact hs
-        · intro n hn; obtain ⟨ad', h1, _⟩ := a _ b; rw [hn] at h1; cases h1
-        · intro hinv; obtain ⟨ad', h1, _⟩ := a _ b; rw [hinv] at h1; cases h1
-      | none =>
-        simp only [hx] at hvs
-        split at hvs
-        · simp at hvs
-        · rename_i hlen
-          simp only [Bool.or_eq_true, decide_eq_true_eq, bne_iff_ne, ne_eq, not_or, Decidable.not_not] at hlen
-          have hzip : ∀ p ∈ t.authRequire.zip t.authRequireSigns, p.2 ∈ t.authRequireSigns :=
-            fun p hp => (List.of_mem_zip hp).2
-          have hcov : ∀ v' : List Name, (∀ p ∈ t.authRequire.zip t.authRequireSigns, Name.ak p.1.addr ∈ v') →
-              ∀ r ∈ t.authRequire, Name.ak r.addr ∈ v' := by
-            intro v' hp r hr
-            obtain ⟨s, hs⟩ := mem_zip_of_mem_left _ _ hlen.2 r hr
-            exact hp (r, s) hs
-          cases hi : t.initiator with
-          | invalid => simp [hi] at hvs
-          | ak a =>
-            simp only [hi] at hvs
-            cases hss : t.initiatorSigns with
-            | nil => simp [hss] at hvs
-            | cons s ss =>
-              simp only [hss] at hvs
-              by_cases hid : identifyAK a s = true
-              · simp only [hid, if_true] at hvs
-                have hsa : signedBy t a := by
-                  simp only [identifyAK, Bool.and_eq_true, beq_iff_eq] at hid
-                  exact Or.inl ⟨s, by simp [hss], hid.1, hid.2⟩
-                obtain ⟨p, q, r⟩ := authLoop_inv e t _ [Name.ak a] v hzip hx
-                  (show ∀ x ∈ ([Name.ak a] : List Name), Justified e t x from by
-                    intro x hx'; simp at hx'; subst hx'; exact hsa) hvs
-                exact ⟨p, (fun a' ha' => by cases ha'; exact hsa), (by intro n hn; cases hn), (by simp), hcov v r⟩
-              · simp [hid] at hvs
-          | account n =>
-            simp only [hi] at hvs
-            cases hl : initAcctLoop t.initiatorSigns [] [] n with
-            | none => simp [hl] at hvs
-            | some res =>
-              simp only [hl] at hvs
-              by_cases hacct : e.acctOk n res.2 = true
-              · simp only [hacct, if_true] at hvs
-                obtain ⟨p0, p1, p2⟩ := initAcctLoop_inv e t _ [] [] n res (fun s hs => hs) (by simp) hl
-                obtain ⟨p, q, r⟩ := authLoop_inv e t _ res.1 v hzip hx p0 hvs
-                refine ⟨p, (by intro a ha; cases ha), ?_, (by simp), hcov v r⟩
-                intro n' hn'
-                cases hn'
-                refine ⟨rfl, p1, res.2, hacct, ?_⟩
-                intro w hw
-                rcases p2 w hw with hu | hu
-                · simp at hu
-                · exact hu
-              · simp [hacct] at hvs
+    have key := sigs_inv e t v hvs
     obtain ⟨k1, k2, k2', k3, k4⟩ := key
     refine ⟨htx, k2, k2', k3, ?_, utxoLoop_inv e t (ex t) t.inputs v k1 h⟩
     intro r hr
@@ -441,7 +466,7 @@ of an already verified address is skipped — such entries may be garbage; signa
 but not in the digest, so with a recomputed id the altered transaction is accepted. -/
 theorem signature_mutation_rejected_counterexample : ¬ signature_mutation_rejected_statement := by
   intro h
-  have := h ⟨fun _ _ => true, fun _ => true⟩
+  have := h ⟨fun _ _ => true, fun _ => true, fun _ _ => true⟩
     { txidOk := true, initiator := .ak 1, initiatorSigns := [⟨some 1, true⟩, ⟨none, false⟩], authRequire := [],
       authRequireSigns := [], xuper := none, inputs := [{ owner := .ak 1 }] } (by decide) ⟨none, false⟩ (by simp)
   simp at this
@@ -627,7 +652,7 @@ compares -/
 def byRefOnly (cins : List Input) (i : Input) : Bool := cins.any (fun c => c.txid == i.txid && c.offset == i.offset)
 
 private def vault : Name := .ak 999
-private def envAcl : Env := ⟨fun n uris => uris.any (fun u => u.prefixAcct == some n && u.addr == n), fun n => n < 8⟩
+private def envAcl : Env := ⟨fun n uris => uris.any (fun u => u.prefixAcct == some n && u.addr == n), fun n => n < 8, fun _ _ => true⟩
 
 /-- the forged-view attack: address 0 signs; the only input is address 6's output (txid 1, offset 0);
 the execution was shown that output as the vault's -/
@@ -647,6 +672,245 @@ theorem exemption_needs_owner : ¬ contract_spend_authorised_statement (fun t =>
     · simp [forged] at hs; subst hs; simp at hk
     · simp [forged] at hx
   · simp at htr; subst htr; simp [vault] at hp
+
+/-! ## Part 4 — the aggregated form, the access-control tables, the two results of the verification,
+the entry `Chain.SubmitTx` -/
+
+/-- the aggregated form as the code was found: the slot took a signature of ANY scheme.  The
+initiator signs alone with a plain ECDSA signature (checked against the first key only), lists
+another address with its public key — and that address counts as verified, its output is spent. -/
+private def loneSigner : SigLogic.Tx :=
+  { txidOk := true, initiator := .ak 0, initiatorSigns := [], authRequire := [⟨none, 1⟩], authRequireSigns := [],
+    xuper := some { keyAddrs := [some 0, some 1], sigOk := true, multi := false }, inputs := [{ owner := .ak 1 }] }
+
+theorem xuper_any_scheme_as_found :
+    verifyXuperSignWith false loneSigner { keyAddrs := [some 0, some 1], sigOk := true, multi := false } = some [.ak 0, .ak 1] ∧
+    ¬ signedBy loneSigner 1 := by
+  refine ⟨by decide, ?_⟩
+  intro h
+  rcases h with ⟨s, hs, _⟩ | ⟨x, hx, _, h | h⟩
+  · simp [loneSigner] at hs
+  · simp only [loneSigner, Option.some.injEq] at hx
+    subst hx
+    simp at h
+  · simp only [loneSigner, Option.some.injEq] at hx
+    subst hx
+    simp at h
+
+/-- the repaired code refuses it (several addresses demand a multi-signature) -/
+theorem xuper_lone_signer_rejected (e : Env) : verifyTx e loneSigner = false := by
+  simp [verifyTx, verifyTxWith, verifySignatures, verifyXuperSign, verifyXuperSignWith, xuperAddrs, loneSigner]
+
+/-- `utxoLoopV` is `utxoLoop` handing on the ids -/
+theorem utxoLoopV_isSome (e : Env) (auth : List AuthReq) (ex : Input → Bool) (ins : List Input) (v : List Name) :
+    (utxoLoopV e auth ex ins v).isSome = utxoLoop e auth ex ins v := by
+  induction ins generalizing v with
+  | nil => simp [utxoLoopV, utxoLoop]
+  | cons i ins ih =>
+    unfold utxoLoopV utxoLoop
+    by_cases hc : ex i = true
+    · simp only [hc, if_true]; exact ih v
+    · simp only [hc]
+      by_cases hm : v.contains i.owner = true
+      · simp only [hm, if_true]; exact ih v
+      · simp only [hm]
+        cases ho : i.owner with
+        | ak a => simp
+        | invalid => simp
+        | account n =>
+          simp only
+          by_cases ha : (e.acctExists n && e.acctOk n auth) = true
+          · simp only [ha, if_true]; exact ih _
+          · simp [ha]
+
+private theorem utxoLoopV_inv (e : Env) (t : SigLogic.Tx) (ex : Input → Bool) (ins : List Input) (v v' : List Name)
+    (hv : ∀ x ∈ v, Justified e t x) (h : utxoLoopV e t.authRequire ex ins v = some v') : ∀ x ∈ v', Justified e t x := by
+  induction ins generalizing v with
+  | nil => simp [utxoLoopV] at h; subst h; exact hv
+  | cons i ins ih =>
+    unfold utxoLoopV at h
+    by_cases hc : ex i = true
+    · simp only [hc, if_true] at h; exact ih v hv h
+    · simp only [hc] at h
+      by_cases hm : v.contains i.owner = true
+      · simp only [hm, if_true] at h; exact ih v hv h
+      · simp only [hm] at h
+        cases ho : i.owner with
+        | ak a => simp [ho] at h
+        | invalid => simp [ho] at h
+        | account n =>
+          simp only [ho] at h
+          by_cases ha : (e.acctExists n && e.acctOk n t.authRequire) = true
+          · simp only [ha, if_true] at h
+            have hok : e.acctOk n t.authRequire = true := by
+              simp only [Bool.and_eq_true] at ha; exact ha.2
+            refine ih _ ?_ h
+            intro x hx
+            rcases List.mem_cons.mp hx with rfl | hx
+            · exact hok
+            · exact hv x hx
+          · simp [ha] at h
+
+/-- the account that decides over a write into an access-control table has its rule satisfied by
+the listed signers; a method rule of a contract without confirmed owner cannot be written -/
+def AclOwnerOk (e : Env) (t : SigLogic.Tx) : AclWrite → Prop
+  | .account n => e.acctOk n t.authRequire = true
+  | .method (some n) => e.acctOk n t.authRequire = true
+  | .method none => False
+
+private theorem rwPermLoop_inv (e : Env) (t : SigLogic.Tx) (ws : List AclWrite) (v : List Name)
+    (hv : ∀ x ∈ v, Justified e t x) (h : rwPermLoop e t.authRequire ws v = true) : ∀ w ∈ ws, AclOwnerOk e t w := by
+  induction ws generalizing v with
+  | nil => simp
+  | cons w ws ih =>
+    have step : ∀ n : Nat, (if v.contains (Name.account n) then rwPermLoop e t.authRequire ws v
+          else if e.acctOk n t.authRequire then rwPermLoop e t.authRequire ws (Name.account n :: v) else false) = true →
+        e.acctOk n t.authRequire = true ∧ ∀ w' ∈ ws, AclOwnerOk e t w' := by
+      intro n h
+      by_cases hc : v.contains (Name.account n) = true
+      · simp only [hc, if_true] at h
+        have hj : Justified e t (Name.account n) := hv _ (by simpa using hc)
+        exact ⟨hj, ih v hv h⟩
+      · simp only [hc] at h
+        by_cases ha : e.acctOk n t.authRequire = true
+        · simp only [ha, if_true] at h
+          refine ⟨ha, ih _ ?_ h⟩
+          intro x hx
+          rcases List.mem_cons.mp hx with rfl | hx
+          · exact ha
+          · exact hv x hx
+        · simp [ha] at h
+    intro w' hw'
+    cases w with
+    | account n =>
+      simp only [rwPermLoop] at h
+      obtain ⟨a, b⟩ := step n h
+      rcases List.mem_cons.mp hw' with rfl | hw'
+      · exact a
+      · exact b w' hw'
+    | method o =>
+      cases o with
+      | none => simp [rwPermLoop] at h
+      | some n =>
+        simp only [rwPermLoop] at h
+        obtain ⟨a, b⟩ := step n h
+        rcases List.mem_cons.mp hw' with rfl | hw'
+        · exact a
+        · exact b w' hw'
+
+/-- **No stage refuses ⇒ signed, owned, and every rule change by its owner.**  (`verifyTx` is the
+part up to `verifyUTXOPermission`, see `accept_implies_signed` for what it yields.) -/
+theorem no_refusal_implies_authorised (e : Env) (t : SigLogic.Tx) (h : firstRefusal e t = none) :
+    verifyTx e t = true ∧ (∀ m ∈ t.calls, e.methodOk m (users t) = true) ∧
+    (t.hasRequests = true → ∀ w ∈ t.aclWrites, AclOwnerOk e t w) := by
+  unfold firstRefusal at h
+  by_cases htx : t.txidOk = true
+  · simp only [htx, Bool.not_true, Bool.false_eq_true, if_false] at h
+    cases hvs : verifySignatures e t with
+    | none => simp [hvs] at h
+    | some v =>
+      simp only [hvs] at h
+      cases hu : utxoLoopV e t.authRequire (byContract t.contractInputs) t.inputs v with
+      | none => simp [hu] at h
+      | some v' =>
+        simp only [hu] at h
+        have hloop : utxoLoop e t.authRequire (byContract t.contractInputs) t.inputs v = true := by
+          rw [← utxoLoopV_isSome, hu]; rfl
+        have hmp : methodPerm e t = true := by
+          by_cases hm : methodPerm e t = true
+          · exact hm
+          · simp [hm] at h
+        simp only [hmp, Bool.not_true, Bool.false_eq_true, if_false] at h
+        refine ⟨by simp [verifyTx, verifyTxWith, htx, hvs, hloop], ?_, ?_⟩
+        · intro m hm
+          exact List.all_eq_true.mp hmp m hm
+        intro hreq
+        have hrw : rwPermLoop e t.authRequire t.aclWrites v' = true := by
+          by_cases hr : rwPermLoop e t.authRequire t.aclWrites v' = true
+          · exact hr
+          · simp [hreq, hr] at h
+        exact rwPermLoop_inv e t _ v' (utxoLoopV_inv e t _ _ v v' (sigs_inv e t v hvs).1 hu) hrw
+  · simp [htx] at h
+
+/-- **The two results agree.**  Whatever a refusing stage's own error value is, `State.VerifyTx`
+answers `(true, nil)` or `(false, error)`: every stage's error is replaced by a fixed one, and the
+refusal of a transaction that relies on a marked one carries an error. -/
+theorem verdict_consistent (relies : Bool) (e : Env) (t : SigLogic.Tx) :
+    (stateVerifyTx relies e t).ok = !(stateVerifyTx relies e t).err := by
+  unfold stateVerifyTx stateVerifyTxWith immediateVerify immediateVerifyWith
+  cases firstRefusal e t <;> cases relies <;> simp
+
+theorem own_errors_irrelevant (own : Stage → Bool) (e : Env) (t : SigLogic.Tx) :
+    immediateVerifyWith (fun _ => false) own e t = immediateVerify e t := by
+  unfold immediateVerify immediateVerifyWith
+  cases firstRefusal e t <;> simp
+
+/-- hence the entry `Chain.SubmitTx`, which looks at the error only, takes into the pool exactly what is accepted -/
+theorem submit_iff_accepted (relies : Bool) (e : Env) (t : SigLogic.Tx) (spendable : Bool) :
+    submitTx relies e t spendable = ((stateVerifyTx relies e t).ok && spendable) := by
+  unfold submitTx submitOf
+  rw [verdict_consistent]
+
+theorem accepted_iff_no_refusal (relies : Bool) (e : Env) (t : SigLogic.Tx) :
+    (stateVerifyTx relies e t).ok = true ↔ firstRefusal e t = none := by
+  unfold stateVerifyTx stateVerifyTxWith immediateVerify immediateVerifyWith
+  cases firstRefusal e t <;> cases relies <;> simp
+
+/-- **What `Chain.SubmitTx` takes into the pool is signed and authorised**, on marked chains too. -/
+theorem pooled_implies_authorised (relies : Bool) (e : Env) (t : SigLogic.Tx) (spendable : Bool)
+    (h : submitTx relies e t spendable = true) :
+    verifyTx e t = true ∧ (∀ m ∈ t.calls, e.methodOk m (users t) = true) ∧
+    (t.hasRequests = true → ∀ w ∈ t.aclWrites, AclOwnerOk e t w) := by
+  rw [submit_iff_accepted, Bool.and_eq_true] at h
+  exact no_refusal_implies_authorised e t ((accepted_iff_no_refusal relies e t).mp h.1)
+
+/-- a rule change whose owning account's rule the listed signers do not satisfy does not reach the pool -/
+theorem acl_change_without_owner_not_pooled (relies : Bool) (e : Env) (t : SigLogic.Tx) (spendable : Bool)
+    (hreq : t.hasRequests = true) (w : AclWrite) (hw : w ∈ t.aclWrites) (hno : ¬ AclOwnerOk e t w) :
+    submitTx relies e t spendable = false := by
+  apply Bool.eq_false_iff.mpr
+  intro h
+  exact hno ((pooled_implies_authorised relies e t spendable h).2.2 hreq w hw)
+
+/-- a call of a method whose rule the users (address initiator + listed signers) do not satisfy does
+not reach the pool -/
+theorem guarded_call_without_rule_not_pooled (relies : Bool) (e : Env) (t : SigLogic.Tx) (spendable : Bool)
+    (m : Nat) (hm : m ∈ t.calls) (hno : e.methodOk m (users t) = false) : submitTx relies e t spendable = false := by
+  apply Bool.eq_false_iff.mpr
+  intro h
+  have := (pooled_implies_authorised relies e t spendable h).2.1 m hm
+  rw [hno] at this
+  cases this
+
+/-- Why the fixed errors matter: if ONE stage's own error value were handed on (`return ok, err`)
+and that stage refuses without an error of its own — a rule that is simply not satisfied — the
+verification says `false`, yet `Chain.SubmitTx` takes the transaction into the pool. -/
+theorem stage_error_handed_on_pools_refused (handsOn own : Stage → Bool) (e : Env) (t : SigLogic.Tx) (s : Stage)
+    (hs : firstRefusal e t = some s) (h1 : handsOn s = true) (h2 : own s = false) :
+    (immediateVerifyWith handsOn own e t).ok = false ∧ submitOf (immediateVerifyWith handsOn own e t) true = true := by
+  simp [immediateVerifyWith, submitOf, hs, h1, h2]
+
+/-- the statement "what `Chain.SubmitTx` takes into the pool, the verification accepted" for the code as
+found (a refusal by the marked-transaction check carried no error) -/
+def pooled_was_accepted_statement (markedErr : Bool) : Prop :=
+  ∀ (relies : Bool) (e : Env) (t : SigLogic.Tx),
+    submitOf (stateVerifyTxWith markedErr relies (immediateVerify e t)) true = true → verifyTx e t = true
+
+private def thief : SigLogic.Tx :=
+  { txidOk := true, initiator := .ak 0, initiatorSigns := [⟨some 0, true⟩], authRequire := [], authRequireSigns := [],
+    xuper := none, inputs := [{ owner := .ak 5 }] }
+
+/-- False of the code as found: a transaction that spends an unsigned owner's output of a marked
+transaction was refused without error and taken into the pool. -/
+theorem pooled_was_accepted_as_found : ¬ pooled_was_accepted_statement false := by
+  intro h
+  have := h true ⟨fun _ _ => true, fun _ => true, fun _ _ => true⟩ thief (by decide)
+  revert this
+  decide
+
+theorem pooled_was_accepted_repaired : pooled_was_accepted_statement true := by
+  intro relies e t h
+  exact (pooled_implies_authorised relies e t true (by simpa [submitTx, stateVerifyTx] using h)).1
 
 /-! ## non-vacuity -/
 
@@ -675,11 +939,29 @@ private def tx0 : Schema.Tx :=
 set_option maxRecDepth 20000 in
 example : digestPre tx0 ≠ digestPre { tx0 with core := { tx0.core with desc := [101] } } := by decide
 
-private def env0 : Env := ⟨fun _ _ => true, fun _ => true⟩
+private def env0 : Env := ⟨fun _ _ => true, fun _ => true, fun _ _ => true⟩
 private def stx : SigLogic.Tx :=
   { txidOk := true, initiator := .ak 1, initiatorSigns := [⟨some 1, true⟩], authRequire := [⟨none, 2⟩],
     authRequireSigns := [⟨some 2, true⟩], xuper := none, inputs := [{ owner := .ak 2 }, { owner := .account 7 }] }
 example : verifyTx env0 stx = true := by decide
 example : verifyTx env0 { stx with authRequireSigns := [⟨some 3, true⟩] } = false := by decide
+
+/-- the chain of the `sx` lines: accounts 0..3 are controlled by addresses 0..3, other names are open -/
+private def envX : Env :=
+  ⟨fun n uris => if n < 4 then uris.any (fun u => u.prefixAcct == some n && u.addr == n) else true, fun n => n < 4,
+   fun m us => m != 1 || us.any (fun u => u.prefixAcct == none && u.addr == 3)⟩
+private def ruleChange (auth : List AuthReq) (sigs : List Sig) : SigLogic.Tx :=
+  { txidOk := true, initiator := .ak 0, initiatorSigns := [⟨some 0, true⟩], authRequire := auth, authRequireSigns := sigs,
+    xuper := none, inputs := [{ owner := .ak 0 }], hasRequests := true, aclWrites := [.account 1] }
+-- the owner's key signs below its account: the rule change reaches the pool; a stranger's does not, marked chain or not
+example : submitTx false envX (ruleChange [⟨some 1, 1⟩] [⟨some 1, true⟩]) true = true := by decide
+example : firstRefusal envX (ruleChange [] []) = some .rwperm := by decide
+example : submitTx true envX (ruleChange [] []) true = false := by decide
+example : (stateVerifyTx true envX (ruleChange [] [])) = ⟨false, true⟩ := by decide
+-- method 1 is guarded by address 3: its call by address 0 alone is refused at the method stage, with address 3 listed it passes
+example : firstRefusal envX { ruleChange [] [] with aclWrites := [], calls := [1] } = some .method := by decide
+example : firstRefusal envX { ruleChange [⟨none, 3⟩] [⟨some 3, true⟩] with aclWrites := [], calls := [1] } = none := by decide
+-- a multi-signature of both listed keys is accepted in the aggregated form
+example : verifyTx envX { loneSigner with xuper := some { keyAddrs := [some 0, some 1], sigOk := true, multi := true } } = true := by decide
 
 end XV.C07
